@@ -355,9 +355,11 @@ fn codec_cases(cx: &mut Ctx, rng: &mut Rng, thorough: bool) {
                 }
             }
             // truncations / corruptions of the valid stream
-            let k = if thorough { data.len() } else { data.len().min(24) };
+            // thorough: every cut of a short stream, 1024 evenly spaced cuts of a long one (each cut decompresses the prefix:
+            // every cut of a 16 MiB stream would be quadratic)
+            let k = if thorough { data.len().min(1024) } else { data.len().min(24) };
             for i in 0..k {
-                let cut = if thorough { i } else { rng.below(data.len().max(1)) };
+                let cut = if thorough { if data.len() <= 1024 { i } else { i * (data.len() / 1024) + rng.below((data.len() / 1024).max(1)) } } else { rng.below(data.len().max(1)) };
                 let d2 = format!("codec={name} n={n} truncated at {cut}");
                 let mut s = data[..cut].to_vec();
                 cx.case("decompress", &d2, || {
@@ -396,7 +398,7 @@ pub fn run(args: &[String]) -> i32 {
     let lim = apache_avro::util::max_allocation_bytes(want_lim);
     alloc::set_hard_cap(4usize << 30);
     let mut out = Out::new(dir);
-    crate::util::watchdog(dir, 8000);
+    crate::util::watchdog(dir, 20000);
     let mut rng = Rng::new(seed);
     let mut cx = Ctx { out: &mut out, lim, worst: 0 };
     datum_cases(&mut cx, &mut rng, thorough);
